@@ -171,10 +171,11 @@ def run_options(ctx, h):
 # Inputs only: words are [k, o, v] with v a list of atoms of the specification's vocabulary (spec/FzfOptions.tla,
 # spec/FzfBind.tla); RND stands for an arbitrary text that python makes up and the specification treats as opaque.
 RND = "\\RND"
-NUM = {"0", "1", "2", "3", "5", "8", "10", "30", "40", "50", "60", "80", "99", "100", "255", "256", "1000", "-1"}
+NUM = {"0", "1", "2", "3", "5", "7", "8", "10", "30", "40", "49", "50", "60", "80", "99", "100", "255", "256", "1000", "-1",
+       "1.5"}
 FLAGS = ["--no-multi", "+m", "--no-sort", "+s", "--cycle", "--no-cycle", "--tac", "--no-tac", "-e", "--exact", "+e",
          "--no-exact", "-i", "--ignore-case", "+i", "--no-ignore-case", "--smart-case", "--no-expect", "--no-history",
-         "--no-height", "--no-border", "--no-tmux", "--help", "-h", "--version", "--"]
+         "--no-height", "--no-border", "--no-tmux", "--no-margin", "--no-padding", "--help", "-h", "--version", "--"]
 FREE = ["--query", "--filter", "--prompt", "--delimiter"]          # any text is a valid value
 SHORT = {"--query": "-q", "--filter": "-f", "--delimiter": "-d", "--nth": "-n", "--multi": "-m", "--sort": "-s"}
 CURATED = {
@@ -209,7 +210,33 @@ CURATED = {
                ["center", ",", "80", "%", ",", "border-native"], ["up", ",", "10"], ["down"]],
     "--color": [["fg", ":", "1"], ["bg", ":", "2"], ["fg", ":", "3", ",", "bg", ":", "5"], ["fg", ":", "256"], ["bogus"], [],
                 ["fg", ":", "-1"]],
+    # 1..4 parts, 5 and 6 parts (valid and with a bad one), empty parts, percent forms at the bound, fractions
+    "--margin": [["1"], ["1", ",", "2"], ["1", ",", "2", ",", "3"], ["1", ",", "2", ",", "3", ",", "5"],
+                 ["1", ",", "2", ",", "3", ",", "5", ",", "8"], ["0", ",", "0", ",", "0", ",", "0", ",", "0", ",", "0"],
+                 ["1", ",", "2", ",", "3", ",", "5", ",", "a"], ["1", ",", "2", ",", "3", ",", "5", ","],
+                 ["1", ",", "2", ",", "3", ",", "5", ",", "8", "%"], ["10", "%"], ["1", ",", "5", "%"], ["49", "%"], ["50", "%"],
+                 ["1.5", "%"], ["1.5"], ["5", "%", ",", "2", ",", "10", "%", ",", "3"], ["2", ",", "10", "%", ",", "3"], ["-1"],
+                 ["a"], [], ["1", ",", ",", "2"], ["1", ","], [",", "1"], ["2", ",", "100", "%"], ["-1", "%"], ["%"], [","],
+                 [",", ",", ",", ","]],
+    "--padding": [["1"], ["1", ",", "2"], ["2", ",", "3", ",", "5"], ["0", ",", "1", ",", "2", ",", "3"],
+                  ["0", ",", "0", ",", "0", ",", "0", ",", "0"], ["1", ",", "2", ",", "3", ",", "5", ",", "8", ",", "10"],
+                  ["5", "%"], ["50", "%"], ["a"], [], ["1", ",", ",", "2"], ["2", ",", "10", "%", ",", "3", ",", "5", "%"],
+                  ["3", ",", "10", "%"], ["49", "%", ",", "49", "%", ",", "49", "%", ",", "49", "%", ",", "49", "%"]],
 }
+LABEL_POS = ["--border-label-pos", "--list-label-pos", "--input-label-pos", "--header-label-pos", "--preview-label-pos"]
+for _o in LABEL_POS:
+    CURATED[_o] = [["3"], ["5"], ["0"], ["3", ":", "bottom"], ["7"], ["8", ":", "top"], ["bottom"], ["top"], ["center"],
+                   ["-1", ":", "bottom"], ["center", ":", "bottom"], ["bogus"], [], ["bottom", ":", "5"], ["bogus", ":", "3"],
+                   ["3", ":", "bogus"], ["3", ":"], [":", "3"], ["2", ",", "BOTTOM"], ["1.5"], ["5", ":", "top"], ["0", ":", "bottom"]]
+# values made of PARTS joined by separators (the specification decides any such sequence): option -> (separators,
+# menu of parts, weights for the number of parts 0..n)
+MARGIN_PARTS = [["0"], ["1"], ["2"], ["3"], ["5"], ["5", "%"], ["10", "%"], ["49", "%"], ["50", "%"], ["100", "%"], ["1.5", "%"],
+                ["1.5"], ["-1"], ["a"], [], ["0", "%"]]
+LABEL_PARTS = [["0"], ["3"], ["5"], ["7"], ["-1"], ["top"], ["bottom"], ["center"], ["BOTTOM"], ["bogus"], [], ["1.5"]]
+PARTS = {"--margin": ([","], MARGIN_PARTS, [0, 3, 3, 3, 3, 3, 2, 1]), "--padding": ([","], MARGIN_PARTS, [0, 3, 3, 3, 3, 3, 2, 1])}
+for _o in LABEL_POS:
+    PARTS[_o] = ([":", ":", ","], LABEL_PARTS, [0, 3, 4, 2, 1])
+NO_RND = set(LABEL_POS)      # an arbitrary text may or may not be a label position (`r_a:5` is column 5): never generated
 POOLS = {   # options whose value grammar the specification decides for ANY sequence of these atoms
     "--tiebreak": ["length", "index", "begin", "end", "chunk", "pathname", ",", "bogus"],
     "--nth": ["1", "2", "3", "-1", "0", "..", ",", "a"],
@@ -279,12 +306,23 @@ def gen_value(rng, opt):
     r = rng.random()
     if opt == "--bind" and r < 0.7:
         return gen_bind_atoms(rng)
+    if opt in PARTS and r < 0.55:
+        seps, menu, weights = PARTS[opt]
+        n = rng.choices(range(len(weights)), weights)[0]
+        v = []
+        for k in range(n):
+            if k:
+                v.append(rng.choice(seps))
+            v += rng.choice(menu)
+        if rng.random() < 0.05:
+            v.append(rng.choice(seps))
+        return v
     if opt in POOLS and r < 0.5:
         for _ in range(20):
             v = [rng.choice(POOLS[opt]) for _ in range(rng.randrange(0, 6))]
             if no_adjacent_numbers(v):
                 return v
-    if r > 0.9 or (opt in FREE and r > 0.4):
+    if (r > 0.9 and opt not in NO_RND) or (opt in FREE and r > 0.4):
         return [RND]
     return list(rng.choice(CURATED[opt]))
 
@@ -353,6 +391,15 @@ INVALID_CLASSES = [   # (c) one representative per class of invalid input, throu
     [{"k": "eq", "o": "--expect", "v": ["a", "x"]}], [{"k": "eq", "o": "--border", "v": ["bogus"]}],
     [{"k": "eq", "o": "--color", "v": ["fg", ":", "256"]}], [{"k": "eq", "o": "--scheme", "v": ["bogus"]}],
     [{"k": "eq", "o": "--history", "v": []}],
+    [{"k": "opt", "o": "--margin", "v": []}, {"k": "val", "o": "", "v": ["1", ",", "2", ",", "3", ",", "5", ",", "8"]}],
+    [{"k": "eq", "o": "--padding", "v": ["0", ",", "0", ",", "0", ",", "0", ",", "0"]}],
+    [{"k": "eq", "o": "--margin", "v": ["50", "%"]}], [{"k": "eq", "o": "--padding", "v": ["1", ",", ",", "2"]}],
+    [{"k": "eq", "o": "--margin", "v": []}], [{"k": "eq", "o": "--padding", "v": ["1.5"]}],
+    [{"k": "eq", "o": "--height", "v": ["~", "10"]}, {"k": "eq", "o": "--margin", "v": ["10", "%"]}],
+    [{"k": "eq", "o": "--padding", "v": ["5", "%", ",", "2"]}, {"k": "eq", "o": "--height", "v": ["~", "50", "%"]}],
+    [{"k": "eq", "o": "--border-label-pos", "v": ["bogus"]}], [{"k": "eq", "o": "--list-label-pos", "v": []}],
+    [{"k": "opt", "o": "--input-label-pos", "v": []}, {"k": "val", "o": "", "v": ["3", ":", "bogus"]}],
+    [{"k": "eq", "o": "--header-label-pos", "v": ["3", ":"]}], [{"k": "opt", "o": "--preview-label-pos", "v": []}],
 ] + [[{"k": "opt", "o": "--bind", "v": []}, {"k": "val", "o": "", "v": v}] for v in (
     ["a", ":", "bogus"], ["a"], [":", "up"], ["a", "a", ":", "up"], ["a", ":", "execute", "(", "x"],
     ["a", ":", "execute", "(", "x", ")", "+", "a", ")"], ["a", ":", "execute"], ["ctrl-a", ":", "put"],
@@ -418,8 +465,9 @@ def run_j_options(ctx):
     n = ctx.pick(1500, 40000)
     inputs = [{"file": [], "env": [], "argv": occ + [{"k": "opt", "o": "--filter", "v": []}, {"k": "val", "o": "", "v": ["x"]}]}
               for occ in INVALID_CLASSES]
-    inputs += [{"file": occ, "env": [], "argv": [{"k": "eq", "o": "--filter", "v": ["x"]}]} for occ in INVALID_CLASSES[:6]]
-    inputs += [{"file": [], "env": occ, "argv": [{"k": "eq", "o": "--filter", "v": ["x"]}]} for occ in INVALID_CLASSES[:6]]
+    elsewhere = INVALID_CLASSES[:6] + [o for o in INVALID_CLASSES if o[0]["o"] in ("--margin", "--padding")]
+    inputs += [{"file": occ, "env": [], "argv": [{"k": "eq", "o": "--filter", "v": ["x"]}]} for occ in elsewhere]
+    inputs += [{"file": [], "env": occ, "argv": [{"k": "eq", "o": "--filter", "v": ["x"]}]} for occ in elsewhere]
     for i in inputs:
         i["strs"] = {k: [render(ctx.rng, w) for w in i[k]] for k in SOURCES}
     ninvalid = len(inputs)
@@ -436,7 +484,7 @@ def run_j_options(ctx):
     sweep += [[{"k": "opt", "o": f, "v": []}] for f in FLAGS]
     nsweep = 0
     for k, occ in enumerate(sweep):
-        src = SOURCES[k % 3] if occ[0]["o"] in ("--tmux", "--height") or k % 7 == 0 else "argv"
+        src = SOURCES[k % 3] if occ[0]["o"] in ("--tmux", "--height", "--margin", "--padding") or k % 7 == 0 else "argv"
         i = {"file": [], "env": [], "argv": []}
         i[src] = occ
         i["argv"] = i["argv"] + tail
@@ -551,7 +599,7 @@ def run(ctx):
         "16 embedding contexts x arguments over {a + , : ( ) blank}) whose argument contains at least one of + , : ( ) "
         "blank, compared key by key with the real parseKeymap; rejected cases, arbitrary atom sequences, random bind "
         "strings judged by TLC and real-binary runs are counted separately in coverage")
-    # thorough enumerates its finite spaces completely (all singles, all ordered pairs of the 299 occurrences in all
+    # thorough enumerates its finite spaces completely (all singles, all ordered pairs of the occurrences in all
     # placements; all bind forms x contexts x arguments <= 3; all atom sequences <= 4); quick samples the cross-family pairs
     ctx.cov["exhaustive"] = (not ctx.quick) and only == ""
     if cases:
@@ -562,8 +610,11 @@ def run(ctx):
         bad = rejected[(ctx.seed * 104729) % len(rejected)]
         ctx.sample({"file": bad["file"], "env": bad["env"], "argv": bad["argv"], "expected": bad["exp"]})
     ctx.assumptions += [
-        "option vocabulary: 26 flag spellings and 21 valued options (299 occurrences = option x form x value); "
-        "other options are parsed by the same loop but their value grammars are not modelled",
+        "option vocabulary: %d flag spellings and %d valued options (%s occurrences = option x form x value), among them "
+        "--margin / --padding (1-4 sizes, 5+ parts, empty parts, percent bounds) and the five --*-label-pos options "
+        "(column and side, a later occurrence replaces both); other options are parsed by the same loop but their value "
+        "grammars are not modelled" % (len(FLAGS), len(CURATED),
+                                       ctx.cov.get("action_coverage", {}).get("MC_Options", {}).get("MC_Options.Init", "?")),
         "values are sequences of atoms of a fixed vocabulary chosen so that no concatenation of two atoms is itself a "
         "key/action/number; arbitrary texts (J) are opaque to the spec and only generated where every text has the same "
         "validity (they start with r_, contain no '/', NUL or newline)",
